@@ -58,6 +58,9 @@ std::vector<UnitsPtr>::const_iterator Model::ModelImpl::findUnits(const UnitsPtr
 
 bool Model::ModelImpl::equalUnits(const ModelPtr &other) const
 {
+    if (mUnits.size() != other->unitsCount()) {
+        return false;
+    }
     std::vector<EntityPtr> entities;
     std::copy(mUnits.begin(), mUnits.end(), std::back_inserter(entities));
     return equalEntities(other, entities);
